@@ -250,6 +250,11 @@ def type_matches(spec, crate, expected, actual):
     return True
 
 
+RUST_KEYWORDS = set("""as async await break const continue crate dyn else enum extern false fn for if impl in let loop match mod move mut
+pub ref return self Self static struct super trait true type unsafe use where while abstract become box do final macro override priv try
+typeof unsized virtual yield""".split())
+
+
 def search(text, doc, limit=200):
     issues = []
 
@@ -273,6 +278,23 @@ def search(text, doc, limit=200):
                     fm = re.match(r'\s*\]\s*(?:#\[[^\]]*\]\s*)*(?:pub(?:\([^)]*\))?\s+)?(\w+)\s*[:(,=]', after)
                     fld = fm.group(1) if fm and fm.group(1) not in ("pub", "struct", "enum") else ""
                     add(name, fld, "serde attribute outside the modelled subset changes how this item is (de)serialized", None, "serde(%s)" % arg)
+    # ---- identifiers that are Rust keywords: the file is not valid Rust (rustc/rustfmt reject it), nothing is declared
+    for name, it in crate.items.items():
+        try:
+            if it["kind"] == "struct":
+                fs, _ = crate.fields(name)
+                for k, f in fs.items():
+                    if f["ident"] in RUST_KEYWORDS:
+                        add(name, k, "field identifier is a Rust keyword: the emitted file is not valid Rust",
+                            "an escaped or renamed identifier (e.g. `%s_` with #[serde(rename = \"%s\")])" % (f["ident"], k), "pub %s: %s" % (f["ident"], f["type"]))
+            elif it["kind"] == "enum":
+                for v in crate.variants(name):
+                    if v["ident"] in RUST_KEYWORDS:
+                        add(name, v["ident"], "variant identifier is a Rust keyword: the emitted file is not valid Rust", None, v["ident"])
+        except ValueError:
+            pass
+        if name in RUST_KEYWORDS:
+            add(name, "", "item name is a Rust keyword: the emitted file is not valid Rust", None, name)
     # ---- structures
     for sn, st in mm.S.items():
         it = crate.items.get(sn)
